@@ -1,5 +1,6 @@
 """C19 -- cell geometry: containment, user placement and cluster layout."""
 import builtins
+import json
 import math
 from fractions import Fraction
 
@@ -42,13 +43,81 @@ def prove2(ctx, name, goal, robust_goal=None, **kw):
     (`robust_goal` is weaker than `goal`) so that the float replay is not
     on a knife edge"""
     rec = ctx.prove(name, goal, **kw)
-    if rec['status'] == 'sat' and robust_goal is not None:
+    if rec['status'] == 'sat' and robust_goal is not None and \
+            (_UNIT[0], name) not in _ROBUST_DONE:
+        # the runner replays the first refutation per obligation name
+        _ROBUST_DONE.add((_UNIT[0], name))
         ctx.solver.push()
+        ctx.solver.set('timeout', 5000)
         ctx.solver.add(z3.Not(core._z3bool(robust_goal)))
         if ctx.check(backend='witness') == 'sat':
             rec['model'] = ctx.model_values()
         ctx.solver.pop()
+        ctx.solver.set('timeout', ctx.timeout_ms)
     return rec
+
+
+_ROBUST_DONE = set()
+_UNIT = [None]
+
+
+class FreshSolver:
+    """Drop-in for Ctx.solver that answers every check non-incrementally.
+
+    z3's incremental core (used after push/assumptions) needs seconds for the
+    small circle-constrained polynomial queries of this property, its
+    one-shot QF_NRA pipeline (nlsat) 0.1 s.  Same assertions, same answers."""
+
+    def __init__(self, timeout_ms):
+        self.frames = [[]]
+        self.tmo = timeout_ms
+        self._last = None
+
+    def add(self, *ts):
+        for t in ts:
+            if isinstance(t, (list, tuple)):
+                self.frames[-1].extend(t)
+            else:
+                self.frames[-1].append(t)
+
+    def push(self):
+        self.frames.append([])
+
+    def pop(self, n=1):
+        for _ in range(n):
+            self.frames.pop()
+
+    def set(self, k, v=None, **kw):
+        if k == 'timeout':
+            self.tmo = v
+
+    def assertions(self):
+        return [t for f in self.frames for t in f]
+
+    def check(self, *extra):
+        s = z3.SolverFor('QF_NRA')
+        s.set('timeout', int(self.tmo))
+        s.add(self.assertions())
+        if extra:
+            s.add(*extra)
+        self._last = s
+        return s.check()
+
+    def model(self):
+        return self._last.model()
+
+    def to_smt2(self):
+        s = z3.Solver()
+        s.add(self.assertions())
+        return s.to_smt2()
+
+
+def _setup(ctx, harness, cfg, draw_limit=None):
+    """call first in sym(): non-incremental path solver, unit token"""
+    assert not ctx.solver.assertions()
+    ctx.solver = FreshSolver(ctx.timeout_ms)
+    ctx._c19_draw_limit = draw_limit
+    _UNIT[0] = (harness.name, json.dumps(cfg, sort_keys=True))
 
 
 # ---------------------------------------------------------------------------
@@ -72,53 +141,123 @@ def geo_isinstance(obj, cls):
     return sym_isinstance(obj, cls)
 
 
+def _real_trig(x):
+    """(cos x, sin x) as a pair of plain real atoms c,s with c^2+s^2=1, keyed
+    by the exact argument polynomial (same memo layout as Ctx.uf).  Unlike
+    pysym.uf the atoms are z3 Real constants, not applications of an
+    uninterpreted function, so every query stays in pure QF_NRA (nlsat);
+    functional consistency is syntactic (same polynomial -> same atoms),
+    which is weaker, hence sound for proofs."""
+    ctx = cur()
+    p = x.p
+    kc, ks = ('uf', 'Cos', p.key()), ('uf', 'Sin', p.key())
+    ca = ctx.memo.get(kc)
+    if ca is not None:
+        sa = ctx.memo[ks]
+        return SReal(Poly.atom(ca.id)), SReal(Poly.atom(sa.id))
+    n = next(ctx.fresh)
+    ca = ctx.new_atom('cos%d' % n, 'uf', ('Cos', p))
+    sa = ctx.new_atom('sin%d' % n, 'uf', ('Sin', p))
+    ctx.memo[kc], ctx.memo[ks] = ca, sa
+    ctx.uf_apps.setdefault('Cos', []).append((x, ca.id))
+    ctx.uf_apps.setdefault('Sin', []).append((x, sa.id))
+    c, s = SReal(Poly.atom(ca.id)), SReal(Poly.atom(sa.id))
+    ctx.add(ca.z * ca.z + sa.z * sa.z == 1)
+    ctx.add(z3.And(ca.z >= -1, ca.z <= 1, sa.z >= -1, sa.z <= 1))
+    ctx.hyps.append(('trig', c.p * c.p + s.p * s.p - Poly.const(1)))
+    if p.is_const():
+        v = float(p.const_value())
+        uf._bracket(ctx, ca, math.cos(v))
+        uf._bracket(ctx, sa, math.sin(v))
+    else:
+        # the one value of the functions the code can branch on (angle == 0)
+        ctx.add(z3.Implies(ctx.poly_z3(p) == 0,
+                           z3.And(ca.z == 1, sa.z == 0)))
+    return c, s
+
+
 def _canon_trig(x):
-    """cos/sin with the parity normal form cos(-x)=cos x, sin(-x)=-sin x, so
-    that a rotation by -angle is related to the rotation by +angle."""
+    """cos/sin normal forms: parity cos(-x)=cos x, sin(-x)=-sin x and the
+    addition theorem for a constant offset, cos(x+a)=cos x cos a - sin x sin a
+    (cos a, sin a: atoms bracketed to 1e-12 with ca^2+sa^2=1), so that the
+    rotation by -angle and by angle+const are related to the rotation by angle"""
     x = x if isinstance(x, SReal) else SReal(x)
     if x.p.is_zero():
         return SReal(1), SReal(0)
     if not x.p.is_const():
+        c0 = x.p.const_value()
+        if c0 != 0:
+            cx, sx = _canon_trig(x - c0)
+            ca, sa = _real_trig(SReal(c0))
+            return cx * ca - sx * sa, sx * ca + cx * sa
         m, c = x.p.leading()
         if c < 0:
-            cc, ss = _orig_trig(-x)
+            cc, ss = _real_trig(-x)
             return cc, -ss
-    return _orig_trig(x)
+    return _real_trig(x)
 
 
-_orig_trig = uf._trig
 if getattr(uf, '_c19_patched', False) is False:
     uf._trig = _canon_trig
     uf._c19_patched = True
 
 
 class _BoundedRandom(_Random):
-    """RNG stub with a bound on the number of draws per path."""
-    LIMIT = 6
+    """RNG stub (fresh reals in [0,1)) with an optional bound on the number of
+    draws per path: paths needing more are cut (bounded exploration)."""
 
     def rand(self, *shape):
         if active():
             c = cur()
             n = getattr(c, '_c19_draws', 0) + 1
             c._c19_draws = n
-            if n > self.LIMIT:
+            lim = getattr(c, '_c19_draw_limit', None)
+            if lim is not None and n > lim:
+                c.notes.append('path cut: more than %d RNG draws' % lim)
                 raise PathInfeasible()
         return super().rand(*shape)
 
 
 def _sq_key(e):
-    """monotone re-keying for sorting: a non-negative sqrt atom -> its square"""
+    """monotone re-keying for sorting: a non-negative product of sqrt atoms
+    (what abs() of a symbolic complex returns) -> its square, a polynomial"""
     if isinstance(e, SReal):
+        if e.p.is_const():
+            v = e.p.const_value()
+            return SReal(v * v) if v >= 0 else None
         single = e.p.monomial_single()
-        if single is not None and single[0] > 0 and len(single[1]) == 1 \
-                and single[1][0][1] == 1:
-            a = single[1][0][0]
-            rule = cur().sqrule.get(a)
-            if rule is not None:
-                return SReal(rule.scale(single[0] * single[0]))
-        if e.p.is_const() and e.p.const_value() >= 0:
-            return SReal(e.p.const_value()**2)
+        if single is not None and single[0] > 0:
+            rules = cur().sqrule
+            out = Poly.const(single[0] * single[0])
+            for a, ex in single[1]:
+                rule = rules.get(a)
+                if rule is None or ex != 1:
+                    return None
+                out = out * rule
+            return SReal(out)
     return None
+
+
+def _strip_common_positive_factor(ks):
+    """divide all keys by the monomial of strictly positive atoms common to
+    every term (order preserving)"""
+    ctx = cur()
+    common = None
+    for k in ks:
+        for m in k.p.t:
+            d = {a: e for a, e in m if e > 0 and ctx.atoms[a].nonneg and
+                 ctx.atoms[a].nonzero}
+            if common is None:
+                common = d
+            else:
+                common = {a: min(e, d[a]) for a, e in common.items() if a in d}
+            if not common:
+                return ks
+    if not common:
+        return ks
+    inv = Poly({tuple(sorted((a, -e) for a, e in common.items())):
+                Fraction(1)})
+    return [SReal(k.p * inv) for k in ks]
 
 
 class GeoNP(SymNP):
@@ -153,7 +292,7 @@ class GeoNP(SymNP):
         a = np.asarray(a, dtype=object).ravel()
         ks = [_sq_key(e) for e in a]
         if all(k is not None for k in ks):
-            return ks
+            return _strip_common_positive_factor(ks)
         return list(a)
 
     def argsort(self, a, *args, **kw):
@@ -180,9 +319,97 @@ class GeoNP(SymNP):
         return a[b]
 
 
+_SHMOD = repo_module(SH)
+_ORIG_FCARM = _SHMOD.from_complex_array_to_real_matrix
+_ORIG_PATH = _SHMOD.path
+
+
+def _fcarm(a):
+    """from_complex_array_to_real_matrix on symbolic vertices (the real one
+    reinterprets the complex128 buffer, which has no object-array analogue)"""
+    if active() and is_sym(a):
+        a = np.asarray(a, dtype=object).ravel()
+        out = np.empty((len(a), 2), dtype=object)
+        for i, e in enumerate(a):
+            e = _c(e)
+            out[i, 0], out[i, 1] = e.re, e.im
+        return out
+    return _ORIG_FCARM(a)
+
+
+class _SymPath:
+    """CONTRACT for matplotlib.path.Path(V).contains_point(p) on a convex
+    polygon V (matplotlib's C++ point_in_path is not executed): the answer b
+    is any boolean with  b => p in the closed polygon,  not b => p not in the
+    open polygon  (boundary points may go either way)."""
+
+    def __init__(self, verts):
+        self.V = [SComplex(_c(r[0]).re, _c(r[1]).re) for r in verts]
+        if len(self.V) > 6:
+            raise OutsideBound('matplotlib containment of a non-convex outline')
+
+    def contains_point(self, pt, *a, **kw):
+        ctx = cur()
+        p = SComplex(_c(pt[0]).re, _c(pt[1]).re)
+        # deterministic: same polygon and point -> same answer
+        key = ('mpl', tuple((v.re.p.key(), v.im.p.key()) for v in self.V),
+               p.re.p.key(), p.im.p.key())
+        b = ctx.memo.get(key)
+        if b is None:
+            cr = _oriented_crosses(self.V, p)
+            b = ctx.boolean('mpl_inside%d' % next(ctx.fresh))
+            ctx.memo[key] = b
+            ctx.assume(Implies(b, _in_closed(cr)))
+            ctx.assume(Implies(Not(b), Not(_in_open(cr))))
+        return bool(b)
+
+
+class _PathStub:
+    def __getattr__(self, name):
+        return getattr(_ORIG_PATH, name)
+
+    @staticmethod
+    def Path(verts, *a, **kw):
+        if active() and is_sym(verts):
+            return _SymPath(verts)
+        return _ORIG_PATH.Path(verts, *a, **kw)
+
+
 GEONP = GeoNP()
 NAMES = dict(BUILTINS)
 NAMES.update(complex=sym_complex, isinstance=geo_isinstance, np=GEONP)
+NAMES_MPL = dict(NAMES, path=_PathStub(),
+                 from_complex_array_to_real_matrix=_fcarm)
+
+
+def _eval(x, env):
+    """float value of a symbolic scalar for given input values (hints only)"""
+    if isinstance(x, SComplex):
+        return complex(_eval(x.re, env), _eval(x.im, env))
+    if not isinstance(x, SReal):
+        return x
+    ctx = cur()
+
+    def atom(i):
+        a = ctx.atoms[i]
+        if a.kind == 'var':
+            return float(env.get(a.name, 0.0))
+        if a.kind == 'uf':
+            v = _eval(SReal(a.data[1]), env)
+            return math.cos(v) if a.data[0] == 'Cos' else math.sin(v)
+        if a.kind == 'sqrt':
+            return math.sqrt(_eval(SReal(a.data), env))
+        if a.kind == 'inv':
+            return 1.0 / _eval(SReal(a.data), env)
+        raise ValueError(a.kind)
+
+    tot = 0.0
+    for m, c in x.p.t.items():
+        v = float(c)
+        for a, e in m:
+            v *= atom(a)**e
+        tot += v
+    return tot
 
 
 def _trig_inputs(ctx, name, angle_deg):
@@ -218,6 +445,18 @@ def _rot_input(ctx, cfg, name='rot'):
     return float(r)
 
 
+def _size_input(ctx, cfg, name='r'):
+    """size: symbolic in [1e-3, 1e6] or the literal of the cfg"""
+    if cfg.get(name, 'sym') == 'sym':
+        return ctx.real(name, lo=Fraction(1, 1000), hi=10**6)
+    return float(cfg[name])
+
+
+def _size_from_model(m, cfg, name='r'):
+    return float(m.get(name, 1.0)) if cfg.get(name, 'sym') == 'sym' else \
+        float(cfg[name])
+
+
 def _lit(cfg, name='rot'):
     r = cfg.get(name, 'sym')
     return None if r == 'sym' else r
@@ -244,12 +483,52 @@ def _edge_crosses(V, p):
             for i in range(n)]
 
 
+class _Oriented(list):
+    """edge cross products of a polygon known to be counter-clockwise"""
+
+
+def _oriented_crosses(V, p):
+    """cross products signed so that inside means >= 0; the orientation
+    (sign of the signed area) is decided by the solver on this path"""
+    V = [_c(v) for v in V]
+    cr = _edge_crosses(V, p)
+    area2 = SReal(0)
+    for i in range(1, len(V) - 1):
+        area2 = area2 + _cross(V[i] - V[0], V[i + 1] - V[0])
+    if bool(area2 > 0):
+        return _Oriented(cr)
+    if bool(area2 < 0):
+        return _Oriented([-x for x in cr])
+    return cr
+
+
 def _in_closed(cr, slack=0):
+    if isinstance(cr, _Oriented):
+        return And(*[x >= -slack for x in cr])
     return Or(And(*[x >= -slack for x in cr]), And(*[x <= slack for x in cr]))
 
 
 def _in_open(cr, slack=0):
+    if isinstance(cr, _Oriented):
+        return And(*[x > slack for x in cr])
     return Or(And(*[x > slack for x in cr]), And(*[x < -slack for x in cr]))
+
+
+def _js(x):
+    """JSON-able copy of a replay detail (complex -> [re, im])"""
+    if isinstance(x, dict):
+        return {str(k): _js(v) for k, v in x.items()}
+    if isinstance(x, (list, tuple)):
+        return [_js(v) for v in x]
+    if isinstance(x, np.ndarray):
+        return _js(x.tolist())
+    if isinstance(x, np.generic):
+        x = x.item()
+    if isinstance(x, complex):
+        return [x.real, x.imag]
+    if isinstance(x, (int, float, str, bool)) or x is None:
+        return x
+    return repr(x)
 
 
 # plain-float oracles for replay / concrete runs ------------------------------
@@ -329,6 +608,7 @@ class RectContain(Harness):
         return pos, c[a], c[b]
 
     def sym(self, ctx, cfg):
+        _setup(ctx, self, cfg)
         sh = repo_module(SH)
         rot = _rot_input(ctx, cfg)
         pos, f, s = self._corners(ctx, cfg['order'])
@@ -410,6 +690,7 @@ class CircleContain(Harness):
     timeout_ms = {'quick': 15000, 'thorough': 60000}
 
     def sym(self, ctx, cfg):
+        _setup(ctx, self, cfg)
         sh = repo_module(SH)
         pos, p = ctx.cplx('pos'), ctx.cplx('p')
         r = ctx.real('r', positive=True)
@@ -504,6 +785,7 @@ class HexVertices(Harness):
         return [dict(rot=r) for r in ('sym', 0.0, 30.0, 90.0, -45.5)]
 
     def sym(self, ctx, cfg):
+        _setup(ctx, self, cfg)
         sh = repo_module(SH)
         rot = _rot_input(ctx, cfg)
         pos = ctx.cplx('pos')
@@ -570,7 +852,788 @@ class HexVertices(Harness):
         return 20
 
 
-HARNESSES = [RectContain(), CircleContain(), HexVertices()]
+# ---------------------------------------------------------------------------
+class _ScriptedNP:
+    """numpy whose random_sample() replays the draws of a counterexample
+    (replay only: the RNG is the one input of add_random_user / pointprocess
+    that the public API does not expose)"""
+
+    class _R:
+        def __init__(self, seq):
+            self.seq = list(seq)
+            self.rs = np.random.RandomState(12345)
+
+        def __getattr__(self, name):
+            return getattr(np.random, name)
+
+        def _one(self):
+            return self.seq.pop(0) if self.seq else self.rs.random_sample()
+
+        def random_sample(self, size=None):
+            if size is None:
+                return self._one()
+            n = int(np.prod(size))
+            return np.array([self._one() for _ in range(n)]).reshape(size)
+
+        def rand(self, *shape):
+            return self.random_sample(shape if shape else None)
+
+    def __init__(self, seq):
+        self.random = self._R(seq)
+
+    def __getattr__(self, name):
+        return getattr(np, name)
+
+
+def _draws(m):
+    ks = sorted((k for k in m if k.startswith('rand') and k[4:].isdigit()),
+                key=lambda k: int(k[4:]))
+    return [min(max(float(m[k]), 0.0), 1.0 - 2**-53) for k in ks]
+
+
+def _unit_rot(rot):
+    """e^{j rot}: symbolic pair of the code's own angle, or literal"""
+    if isinstance(rot, SReal):
+        c, s = uf._trig(rot * np.pi / 180.)
+        return SComplex(c, s)
+    return _c(complex(math.cos(math.radians(rot)), math.sin(math.radians(rot))))
+
+
+def _band(x, tol):
+    return And(x <= tol, x >= -tol)
+
+
+# ---------------------------------------------------------------------------
+class BorderPoint(Harness):
+    """get_border_point / add_border_user: the point, scaled back by 1/ratio,
+    lies on the boundary of the polygon of the shape's own vertices, in the
+    requested direction from the centre."""
+    name = 'border-point'
+    modules = (SH, CE)
+    builtins = NAMES
+    div_mode = 'assume'
+    functions = (SH + ':Shape.get_border_point', CE + ':CellBase.add_border_user',
+                 CE + ':CellBase._validate_ratio', SH + ':Shape.vertices',
+                 CE + ':Cell3Sec._get_vertex_positions')
+    bounds = ('hexagon cell, square cell, general rectangle (symbolic aspect), '
+              '3-sector cell (thorough); centre symbolic complex; ratio '
+              'symbolic in (0,1) and literal 1; EITHER literal rotation '
+              '(0,30 quick; +90,-45.5 thorough) with an arbitrary symbolic '
+              'angle and radius/side in [1e-3,1e6], OR (square; hexagon at '
+              'offset 0) arbitrary symbolic rotation with the angle at a '
+              'literal offset from it and literal size; tolerance 1e-11 '
+              'relative')
+    stubs = ('np.argsort/np.max on |.|: comparison sort on the squared keys '
+             '(monotone), common positive factor removed',
+             'np.tan -> sin/cos', 'complex() -> symbolic constructor')
+    assumptions = ('divisors are non-zero (ray not parallel to the chosen edge: '
+                   'genericity)', 'floats are exact reals')
+    outside = ('rotation and angle both arbitrary and unrelated (QF_NRA with '
+               'two independent rotations: z3 answers unknown); hexagon with '
+               'arbitrary rotation at offsets other than 0 (unknown)',
+               'radius < 1e-3: the absolute atol=1e-15 vertical-edge test of '
+               'the code becomes scale dependent')
+    timeout_ms = {'quick': 20000, 'thorough': 60000}
+    unit_wall_s = {'quick': 110, 'thorough': 1200}
+
+    def configs(self, tier):
+        q = tier == 'quick'
+        out = []
+        # literal rotation, arbitrary angle, symbolic size, ratio in (0,1)
+        for rot in (0.0, 30.0) if q else (0.0, 30.0, 90.0, -45.5):
+            for half in ('q1', 'q2', 'q3', 'q4'):
+                out.append(dict(shape='hex', rot=rot, half=half))
+            out.append(dict(shape='square', rot=rot, half='any'))
+        # ratio exactly 1 (the code substitutes 1 - 1e-15)
+        out.append(dict(shape='square', rot=0.0, half='any', ratio=1.0))
+        if not q:
+            for half in ('upper', 'lower'):
+                out.append(dict(shape='hex', rot=0.0, half=half, ratio=1.0))
+        for half in ('upper', 'lower'):
+            out.append(dict(shape='rect', rot=0.0, half=half))
+        # arbitrary rotation, angle at a literal offset from it, literal size
+        for off in (0.0, 17.0) if q else (0.0, 17.0, 45.0, 90.0, 133.5, 211.0,
+                                          330.0):
+            out.append(dict(shape='square', rot='sym', off=off, r=1.0))
+        if not q:
+            out.append(dict(shape='square', rot='sym', off=60.0, r=2.5))
+            out.append(dict(shape='hex', rot='sym', off=0.0, r=1.0))
+            for half in ('upper', 'lower'):
+                out.append(dict(shape='3sec', rot=0.0, half=half))
+                out.append(dict(shape='rect', rot=30.0, half=half))
+        return out
+
+    @staticmethod
+    def _make(sh, ce, shape, pos, size, rot, w=None, h=None):
+        if shape == 'hex':
+            return ce.Cell(pos, size, 3, rot)
+        if shape == 'square':
+            return ce.CellSquare(pos, size, 3, rot)
+        if shape == '3sec':
+            return ce.Cell3Sec(pos, size, 3, rot)
+        return sh.Rectangle(pos - w - 1j * h, pos + w + 1j * h, rot)
+
+    def sym(self, ctx, cfg):
+        _setup(ctx, self, cfg)
+        sh, ce = repo_module(SH), repo_module(CE)
+        shape = cfg['shape']
+        rot = _rot_input(ctx, cfg)
+        pos = ctx.cplx('pos')
+        if cfg.get('off') is not None:
+            ang = rot + cfg['off']
+        else:
+            ang = ctx.real('ang', lo=-720, hi=720)
+            _trig_inputs(ctx, 'ang', ang)
+        ca, sa = uf._trig(ang * np.pi / 180.)
+        half = cfg.get('half')
+        if half in ('upper', 'q1', 'q2'):
+            ctx.assume(sa >= 0)
+        elif half in ('lower', 'q3', 'q4'):
+            ctx.assume(sa <= 0)
+        if half in ('q1', 'q4'):
+            ctx.assume(ca >= 0)
+        elif half in ('q2', 'q3'):
+            ctx.assume(ca <= 0)
+        if cfg.get('ratio') is not None:
+            ratio = float(cfg['ratio'])
+        else:
+            ratio = ctx.real('ratio', lo=0, hi=1)
+            ctx.assume(ratio > 0)
+            ctx.assume(ratio < 1)
+        if shape == 'rect':
+            w = ctx.real('w', lo=Fraction(1, 1000), hi=10**6)
+            h = ctx.real('h', lo=Fraction(1, 1000), hi=10**6)
+            S = self._make(sh, ce, shape, pos, None, rot, w, h)
+            P = S.get_border_point(ang, ratio)
+            scale, unit2 = 1, w * w + h * h
+        else:
+            r = _size_input(ctx, cfg)
+            S = self._make(sh, ce, shape, pos, r, rot)
+            S.add_border_user(ang, ratio)
+            assert S.num_users == 1
+            P = S.users[0].pos
+            ctx.prove('user-bookkeeping',
+                      And(_c(S.users[0].relative_pos) == _c(P) - pos,
+                          S.users[0].cell_id == 3))
+            scale, unit2 = r, 1
+        d = SComplex(ca, sa)
+        B = (_c(P) - pos) / ratio / scale
+        W = [(_c(v) - pos) / scale for v in S.vertices]
+        tol = TOL * unit2
+        ctx.prove('direction', And(_band(_cross(d, B), tol), _dot(d, B) > 0))
+        cr = _edge_crosses(W, B)
+        n = len(W)
+        if shape == '3sec':
+            on = []
+            for i in range(n):
+                e = W[(i + 1) % n] - W[i]
+                t = _dot(e, B - W[i])
+                on.append(And(_band(cr[i], tol), t >= -tol,
+                              t <= e.abs2() + tol))
+            ctx.prove('on-boundary', Or(*on))
+        else:
+            prove2(ctx, 'on-boundary',
+                   And(_in_closed(cr, tol), Or(*[_band(x, tol) for x in cr])),
+                   And(_in_closed(cr, unit2 * MARGIN),
+                       Or(*[_band(x, unit2 * MARGIN) for x in cr])))
+
+    @staticmethod
+    def _run(sh, ce, shape, pos, size, rot, ang, ratio, w=None, h=None):
+        S = BorderPoint._make(sh, ce, shape, pos, size, rot, w, h)
+        if shape == 'rect':
+            P = S.get_border_point(ang, ratio)
+        else:
+            S.add_border_user(ang, ratio)
+            P = S.users[0].pos
+        V = [complex(v) for v in S.vertices]
+        size_f = max(abs(v - pos) for v in V)
+        B = pos + (P - pos) / ratio
+        d = complex(math.cos(math.radians(ang)), math.sin(math.radians(ang)))
+        off = B - pos
+        dir_err = abs(off.real * d.imag - off.imag * d.real) / size_f
+        fwd = off.real * d.real + off.imag * d.imag
+        bd = f_boundary_dist(V, B) / size_f
+        bad = []
+        if dir_err > 1e-9 or fwd <= 0:
+            bad.append('direction')
+        if bd > 1e-9:
+            bad.append('off-boundary')
+        return bad, dict(point=P, border=B, boundary_dist_rel=bd,
+                         dir_err_rel=dir_err, vertices=V)
+
+    def replay(self, cfg, name, model):
+        sh, ce = repo_module(SH), repo_module(CE)
+        m = model_floats(model)
+        shape = cfg['shape']
+        rot = _angle_from_model(m, 'rot', _lit(cfg))
+        ang = rot + cfg['off'] if cfg.get('off') is not None else \
+            _angle_from_model(m, 'ang')
+        pos = complex(m['pos_re'], m['pos_im'])
+        ratio = float(cfg['ratio']) if cfg.get('ratio') is not None else (
+            float(m.get('ratio', 1.0)) or 1.0)
+        w, h, r = m.get('w'), m.get('h'), _size_from_model(m, cfg)
+        bad, det = self._run(sh, ce, shape, pos, r, rot, ang, ratio, w, h)
+        cls = {'hex': 'Cell', 'square': 'CellSquare', '3sec': 'Cell3Sec',
+               'rect': 'Rectangle'}[shape]
+        if shape == 'rect':
+            kind = 'non-square' if abs(w - h) > 1e-9 * max(w, h) else 'square'
+        else:
+            kind = 'any-angle'
+        det.update(pos=pos, size=r, w=w, h=h, rotation=rot, angle=ang,
+                   ratio=ratio, failed=bad)
+        return dict(reproduced=bool(bad),
+                    key='C19/%s.get_border_point/%s' % (cls, kind), detail=det)
+
+    def concrete(self, cfg, rng):
+        sh, ce = repo_module(SH), repo_module(CE)
+        shape = cfg['shape']
+        if shape == 'rect':
+            # squares through the Rectangle class are fine; elongated ones
+            # are the subject of the symbolic run
+            n = 0
+            for _ in range(20):
+                pos = complex(rng.uniform(-5, 5), rng.uniform(-5, 5))
+                a = 10**rng.uniform(-1, 1)
+                bad, det = self._run(sh, ce, 'rect', pos, None, cfg['rot'],
+                                     rng.uniform(-720, 720),
+                                     rng.uniform(0.05, 1), a, a)
+                assert not bad, det
+                n += 1
+            return n
+        n = 0
+        for _ in range(40):
+            pos = complex(rng.uniform(-5, 5), rng.uniform(-5, 5))
+            rot = rng.uniform(-720, 720) if cfg['rot'] == 'sym' else cfg['rot']
+            bad, det = self._run(sh, ce, shape, pos, 10**rng.uniform(-2, 2),
+                                 rot, rng.uniform(-720, 720),
+                                 rng.uniform(0.05, 1))
+            assert not bad, det
+            n += 1
+        return n
+
+
+# ---------------------------------------------------------------------------
+class RandomUser(Harness):
+    """add_random_user: on termination the user is inside the polygon of the
+    cell's own vertices and not closer to the centre than min_dist_ratio*r."""
+    name = 'random-user'
+    modules = (SH, CE)
+    builtins = NAMES_MPL
+    div_mode = 'assume'
+    functions = (CE + ':CellBase.add_random_user', CE + ':CellBase.add_user',
+                 CE + ':CellSquare.add_user', CE + ':CellSquare.__init__',
+                 SH + ':Rectangle.is_point_inside_shape',
+                 SH + ':Shape.is_point_inside_shape', SH + ':Coordinate.calc_dist')
+    bounds = ('square cell and hexagon cell; centre symbolic, min_dist_ratio in '
+              '[0,0.7]; arbitrary (symbolic) rotation with literal size 1.0 '
+              '(hexagon: and literal min_dist_ratio) (+2.5/0.75/3 thorough), or size in [1e-3,1e6] with literal '
+              'rotation 0 (+30,90,-45.5 thorough); at most 2 rejected '
+              'candidates (6 RNG draws)')
+    stubs = ('np.random.random_sample -> fresh symbolic reals in [0,1)',
+             'hexagon only: matplotlib Path.contains_point -> CONTRACT (answer '
+             'b with b => in closed polygon of the vertices handed over, not b '
+             '=> not in its interior); from_complex_array_to_real_matrix -> '
+             '(N,2) array of the symbolic parts')
+    assumptions = ('floats are exact reals', )
+    outside = ('matplotlib\'s C++ point-in-polygon itself (contract above)',
+               'more than 2 rejections', 'Cell3Sec / sector placement '
+               '(non-convex outline, matplotlib)')
+    timeout_ms = {'quick': 15000, 'thorough': 60000}
+
+    def configs(self, tier):
+        # arbitrary rotation with literal sizes, arbitrary size with literal
+        # rotations (both symbolic at once: z3 answers unknown)
+        out = [dict(cell='square', rot='sym', r=1.0),
+               dict(cell='square', rot=0.0),
+               dict(cell='hex', rot='sym', r=1.0, mdr=0.25),
+               dict(cell='hex', rot=0.0)]
+        if tier != 'quick':
+            out += [dict(cell='square', rot='sym', r=2.5),
+                    dict(cell='hex', rot='sym', r=0.75, mdr=0.0),
+                    dict(cell='hex', rot='sym', r=3.0, mdr=0.7),
+                    dict(cell='square', rot=30.0), dict(cell='square', rot=90.0),
+                    dict(cell='hex', rot=30.0), dict(cell='hex', rot=-45.5)]
+        return out
+
+    def sym(self, ctx, cfg):
+        _setup(ctx, self, cfg, draw_limit=6)
+        ce = repo_module(CE)
+        rot = _rot_input(ctx, cfg)
+        pos = ctx.cplx('pos')
+        r = _size_input(ctx, cfg)
+        mdr = ctx.real('mdr', lo=0, hi=Fraction(7, 10)) if cfg.get(
+            'mdr', 'sym') == 'sym' else cfg['mdr']
+        C = (ce.CellSquare if cfg['cell'] == 'square' else ce.Cell)(pos, r, 5,
+                                                                    rot)
+        C.add_random_user(None, mdr)
+        assert C.num_users == 1
+        u = _c(C.users[0].pos)
+        q = u - pos
+        V = C.vertices
+        cr = _oriented_crosses(V, u)
+        size2 = r * r
+        slack = 0 if _lit(cfg) in (None, 0.0) else size2 * TOL
+        prove2(ctx, 'user-inside-own-cell', _in_closed(cr, slack),
+               _in_closed(cr, size2 * MARGIN))
+        need = mdr * C.radius
+        ctx.prove('user-not-closer-than-requested', q.abs2() >= need * need)
+        ctx.prove('user-bookkeeping',
+                  And(_c(C.users[0].relative_pos) == q,
+                      C.users[0].cell_id == 5))
+
+    def replay(self, cfg, name, model):
+        ce = repo_module(CE)
+        m = model_floats(model)
+        rot = _angle_from_model(m, 'rot', _lit(cfg))
+        pos = complex(m['pos_re'], m['pos_im'])
+        r = _size_from_model(m, cfg)
+        mdr = m.get('mdr', 0.0) if cfg.get('mdr', 'sym') == 'sym' else \
+            cfg['mdr']
+        old = ce.np
+        ce.np = _ScriptedNP(_draws(m))
+        try:
+            C = (ce.CellSquare if cfg['cell'] == 'square' else ce.Cell)(
+                pos, r, 5, rot)
+            C.add_random_user(None, mdr)
+            u = C.users[0].pos
+        finally:
+            ce.np = old
+        V = [complex(v) for v in C.vertices]
+        mg = f_inside_margin(V, u) / r
+        bad = []
+        if mg < -1e-9:
+            bad.append('outside')
+        if abs(u - pos) < mdr * C.radius * (1 - 1e-9):
+            bad.append('too-close')
+        cls = 'CellSquare' if cfg['cell'] == 'square' else 'Cell'
+        rotated = abs(math.remainder(rot, 90.0 if cls == 'CellSquare' else
+                                     60.0)) > 1e-9
+        return dict(reproduced=bool(bad),
+                    key='C19/%s.add_random_user/%s:%s' %
+                    (cls, '+'.join(bad), 'rotated' if rotated else 'aligned'),
+                    detail=dict(pos=pos, size=r, rotation=rot,
+                                min_dist_ratio=mdr, draws=_draws(m), user=u,
+                                margin_rel=mg, vertices=V))
+
+    def concrete(self, cfg, rng):
+        """seeded global RNG; axis-aligned squares and any hexagon"""
+        ce = repo_module(CE)
+        np.random.seed(rng.randrange(2**31))
+        n = 0
+        for _ in range(30):
+            pos = complex(rng.uniform(-5, 5), rng.uniform(-5, 5))
+            r = 10**rng.uniform(-2, 2)
+            mdr = rng.uniform(0, 0.7)
+            if cfg['cell'] == 'square':
+                C = ce.CellSquare(pos, r, 1, rng.choice([0.0, 90.0, 180.0]))
+            else:
+                C = ce.Cell(pos, r, 1, rng.uniform(-720, 720))
+            C.add_random_user(None, mdr)
+            u = C.users[0].pos
+            V = [complex(v) for v in C.vertices]
+            assert f_inside_margin(V, u) / r > -1e-9, (pos, r, u)
+            assert abs(u - pos) >= mdr * C.radius * (1 - 1e-9)
+            n += 1
+        return n
+
+
+# ---------------------------------------------------------------------------
+_HEXDIR = [complex(math.cos(math.radians(30 + 60 * k)),
+                   math.sin(math.radians(30 + 60 * k))) for k in range(6)]
+_SQDIR = [1 + 0j, 1j, -1 + 0j, -1j]
+
+
+class ClusterLayout(Harness):
+    """Cluster: cells congruent, centred on the cluster position, neighbour
+    centres 2 apothems (hexagon) / one side (square) apart along an edge
+    normal of the rotated cell, no two cells overlap, neighbours share an
+    edge."""
+    name = 'cluster'
+    modules = (SH, CE)
+    builtins = NAMES
+    div_mode = 'assume'
+    functions = (CE + ':Cluster.__init__', CE + ':Cluster._calc_cell_positions',
+                 CE + ':Cluster._calc_cell_positions_hexagon',
+                 CE + ':Cluster._calc_cell_positions_square',
+                 CE + ':Cluster._calc_cell_positions_3sec',
+                 CE + ':Cluster._calc_cluster_external_radius',
+                 CE + ':Cell3Sec._calc_sectors_positions',
+                 SH + ':Shape.calc_rotated_pos', SH + ':Shape.vertices')
+    bounds = ('hexagon clusters N in {1,3,4,7} (quick) + {13,19} (thorough); '
+              'square grids N in {1,4,9} (+16,25 thorough); 3-sector clusters '
+              '(positions only) N in {3,7} (+19); cluster position symbolic '
+              'complex, cell radius/side in [1e-3,1e6], rotation symbolic '
+              '(c,s) and literal 30 / -45.5; tolerance 1e-11 relative')
+    stubs = ('np.max over |.|: comparison on squared keys', )
+    assumptions = ('floats are exact reals', )
+    outside = ('wrap-around cells (create_wrap_around_cells)', 'plotting / '
+               'cluster outline (_get_outer_vertexes uses np.angle and '
+               'rounding)', 'Grid of clusters',
+               'overlap of the non-convex 3-sector outlines')
+    timeout_ms = {'quick': 20000, 'thorough': 90000}
+
+    def configs(self, tier):
+        q = tier == 'quick'
+        out = []
+        for n in (1, 3, 4, 7) + (() if q else (13, 19)):
+            out.append(dict(type='simple', N=n, rot='sym'))
+        for n in (1, 4, 9) + (() if q else (16, 25)):
+            out.append(dict(type='square', N=n, rot='sym'))
+        for n in (3, 7) + (() if q else (19, )):
+            out.append(dict(type='3sec', N=n, rot='sym'))
+        out.append(dict(type='simple', N=7, rot=30.0))
+        out.append(dict(type='square', N=4, rot=-45.5))
+        if not q:
+            out.append(dict(type='simple', N=19, rot=-45.5))
+            out.append(dict(type='square', N=9, rot=30.0))
+        return out
+
+    def sym(self, ctx, cfg):
+        _setup(ctx, self, cfg)
+        ce = repo_module(CE)
+        ce.Cluster._normalized_cell_positions.clear()
+        ctype, N = cfg['type'], cfg['N']
+        rot = _rot_input(ctx, cfg)
+        pos = ctx.cplx('pos')
+        r = ctx.real('r', lo=Fraction(1, 1000), hi=10**6)
+        cl = ce.Cluster(r, N, pos, 7, ctype, rot)
+        cells = list(cl)
+        assert len(cells) == N and cl.num_cells == N
+        ctx.prove('cluster-position', _c(cl.pos) == pos)
+        u = _unit_rot(rot)
+        env = dict(rot=0.0, r=1.0)
+        un = 1 + 0j if isinstance(rot, SReal) else complex(_eval(u, env))
+        Z = [(_c(c.pos) - pos) / r for c in cells]
+        K = [_eval(z, env) for z in Z]
+        square = ctype == 'square'
+        dirs = _SQDIR if square else _HEXDIR
+        D = 1.0 if square else math.sqrt(3.0)
+        Dq = Fraction(D)
+
+        # centred
+        sx = sum((z.re for z in Z), SReal(0))
+        sy = sum((z.im for z in Z), SReal(0))
+        ctx.prove('centred-on-cluster-position',
+                  And(_band(sx, N * TOL), _band(sy, N * TOL)))
+
+        # congruent: same class, size, rotation, same outline up to translation
+        cls = type(cells[0])
+        want = dict(simple=ce.Cell, square=ce.CellSquare, **{'3sec': ce.Cell3Sec})
+        same = [type(c) is want[ctype] for c in cells]
+        V = [c.vertices for c in cells]
+        goals = [all(same)]
+        for i, c in enumerate(cells):
+            goals.append(SReal(c.radius) == SReal(cells[0].radius))
+            goals.append(SReal(c.rotation) == SReal(rot))
+            goals.append(c.id == i + 1)
+            if i:
+                assert len(V[i]) == len(V[0])
+                for k in range(len(V[0])):
+                    goals.append((_c(V[i][k]) - _c(c.pos)) ==
+                                 (_c(V[0][k]) - _c(cells[0].pos)))
+        if square:
+            goals.append(_band(SReal(cells[0].radius) / r * 2 -
+                               Fraction(math.sqrt(2.0)), TOL))
+        else:
+            goals.append(SReal(cells[0].radius) == r)
+        ctx.prove('cells-congruent', And(*goals))
+
+        # pairwise: separated along an edge normal of the rotated cell
+        sep, near, share = [], [], []
+        parent_ok = [False] * N
+        for i in range(N):
+            for j in range(i):
+                dz, dk = Z[i] - Z[j], K[i] - K[j]
+                proj = [(dk * (un * e).conjugate()).real for e in dirs]
+                kb = max(range(len(dirs)), key=lambda k: proj[k])
+                if proj[kb] >= D * (1 - 1e-6):
+                    sep.append(_dot(u * dirs[kb], dz) >= Dq * (1 - TOL))
+                else:        # no hint: full disjunction (fails if overlapping)
+                    sep.append(Or(*[_dot(u * e, dz) >= Dq * (1 - TOL)
+                                    for e in dirs]))
+                if abs(dk) < 1.2 * D:
+                    # neighbours: exactly D apart, along that normal
+                    diff = dz - u * dirs[kb] * Dq
+                    near.append(And(_band(diff.re, 4 * TOL),
+                                    _band(diff.im, 4 * TOL),
+                                    dz.abs2() >= Dq * Dq * (1 - 4 * TOL),
+                                    dz.abs2() <= Dq * Dq * (1 + 4 * TOL)))
+                    parent_ok[i] = True
+                    if ctype != '3sec':
+                        # shared edge: two coinciding vertices
+                        pairs = []
+                        for a, va in enumerate(V[i]):
+                            for b, vb in enumerate(V[j]):
+                                if abs(_eval(_c(va) - _c(vb), env)) < 1e-6:
+                                    pairs.append((a, b))
+                        if len(pairs) != 2:
+                            share.append(False)
+                        for a, b in pairs:
+                            e = (_c(V[i][a]) - _c(V[j][b])) / r
+                            share.append(And(_band(e.re, 8 * TOL),
+                                             _band(e.im, 8 * TOL)))
+        ctx.prove('no-overlap:separated-along-an-edge-normal', And(*sep))
+        ctx.prove('neighbour-centres-exactly-2-apothems/1-side-apart',
+                  And(*near))
+        ctx.prove('connected:every-cell-touches-an-earlier-cell',
+                  all(parent_ok[1:]))
+        if ctype != '3sec':
+            ctx.prove('neighbours-share-an-edge', And(*share))
+
+    @staticmethod
+    def _judge(ce, ctype, N, pos, r, rot):
+        ce.Cluster._normalized_cell_positions.clear()
+        cl = ce.Cluster(r, N, pos, 7, ctype, rot)
+        cells = list(cl)
+        P = np.array([c.pos for c in cells])
+        square = ctype == 'square'
+        D = (1.0 if square else math.sqrt(3.0)) * r
+        dirs = _SQDIR if square else _HEXDIR
+        un = complex(math.cos(math.radians(rot)), math.sin(math.radians(rot)))
+        bad = []
+        if abs(P.mean() - pos) > 1e-9 * r * max(1, N):
+            bad.append('not-centred')
+        V0 = cells[0].vertices - cells[0].pos
+        for c in cells:
+            if abs(complex(c.rotation).real - rot) > 1e-9 or np.max(
+                    np.abs((c.vertices - c.pos) - V0)) > 1e-9 * r:
+                bad.append('not-congruent')
+                break
+        reach = {0}
+        for i in range(N):
+            for j in range(i):
+                dk = P[i] - P[j]
+                pr = max((dk * (un * e).conjugate()).real for e in dirs)
+                if pr < D * (1 - 1e-9):
+                    bad.append('overlap')
+                if abs(dk) < 1.2 * D and abs(abs(dk) - D) > 1e-9 * D:
+                    bad.append('neighbour-distance')
+        for _ in range(N):
+            for i in range(N):
+                if any(abs(abs(P[i] - P[j]) - D) < 1e-9 * D and abs(
+                        max((P[i] - P[j]) * (un * e).conjugate()
+                            for e in dirs).real - D) < 1e-9 * D
+                       for j in reach):
+                    reach.add(i)
+        if len(reach) != N:
+            bad.append('disconnected')
+        return sorted(set(bad)), [complex(p) for p in P]
+
+    def replay(self, cfg, name, model):
+        ce = repo_module(CE)
+        m = model_floats(model)
+        rot = _angle_from_model(m, 'rot', _lit(cfg))
+        pos = complex(m.get('pos_re', 0.0), m.get('pos_im', 0.0))
+        r = m.get('r', 1.0)
+        bad, P = self._judge(ce, cfg['type'], cfg['N'], pos, r, rot)
+        return dict(reproduced=bool(bad),
+                    key='C19/Cluster/%s/N=%d/%s' % (cfg['type'], cfg['N'],
+                                                   '+'.join(bad)),
+                    detail=dict(pos=pos, r=r, rotation=rot, failed=bad,
+                                cell_positions=P))
+
+    def concrete(self, cfg, rng):
+        ce = repo_module(CE)
+        n = 0
+        for _ in range(5):
+            pos = complex(rng.uniform(-5, 5), rng.uniform(-5, 5))
+            rot = rng.uniform(-720, 720) if cfg['rot'] == 'sym' else cfg['rot']
+            bad, P = self._judge(ce, cfg['type'], cfg['N'], pos,
+                                 10**rng.uniform(-2, 2), rot)
+            assert not bad, (cfg, pos, rot, bad)
+            n += 1
+        return n
+
+
+# ---------------------------------------------------------------------------
+class Distances(Harness):
+    """user-to-cell distance matrices equal the Euclidean distances, rows =
+    users in cell order, columns = cells."""
+    name = 'distances'
+    modules = (SH, CE)
+    builtins = NAMES_MPL
+    div_mode = 'assume'
+    functions = (CE + ':Cluster.calc_dist_all_users_to_each_cell',
+                 CE + ':Cluster.calc_dist_all_users_to_each_cell_no_wrap_around',
+                 CE + ':Cluster.get_all_users', CE + ':CellBase.add_user',
+                 SH + ':Coordinate.calc_dist')
+    bounds = ('square grid N=4 (side symbolic), hexagon cluster N=3 (radius 1, '
+              'rotation 30) (+ hexagon N=7, square N=9 thorough); cluster '
+              'position symbolic; three users at symbolic positions in the '
+              'first and last cell')
+    stubs = RandomUser.stubs[1:]
+    timeout_ms = {'quick': 15000, 'thorough': 60000}
+
+    def configs(self, tier):
+        out = [dict(type='square', N=4, rot=0.0),
+               dict(type='simple', N=3, rot=30.0, r=1.0)]
+        if tier != 'quick':
+            out += [dict(type='simple', N=7, rot=0.0, r=2.0),
+                    dict(type='square', N=9, rot=0.0)]
+        return out
+
+    def expected_exception(self, cfg, exc):
+        return isinstance(exc, ValueError) and 'outside the cell' in str(exc)
+
+    def sym(self, ctx, cfg):
+        _setup(ctx, self, cfg)
+        ce = repo_module(CE)
+        ce.Cluster._normalized_cell_positions.clear()
+        rot = _rot_input(ctx, cfg)
+        pos = ctx.cplx('pos')
+        r = _size_input(ctx, cfg)
+        cl = ce.Cluster(r, cfg['N'], pos, 1, cfg['type'], rot)
+        cells = list(cl)
+        us = [ctx.cplx('u%d' % i) for i in range(3)]
+        cells[-1].add_user(ce.Node(us[1]), relative_pos_bool=False)
+        cells[0].add_user(ce.Node(us[0]), relative_pos_bool=False)
+        cells[-1].add_user(ce.Node(us[2]), relative_pos_bool=False)
+        order = [us[0], us[1], us[2]] if len(cells) > 1 else [us[1], us[0],
+                                                               us[2]]
+        for nm, D in (('dist-matrix', cl.calc_dist_all_users_to_each_cell()),
+                      ('dist-matrix-no-wrap',
+                       cl.calc_dist_all_users_to_each_cell_no_wrap_around())):
+            assert D.shape == (3, len(cells)), D.shape
+            goals = []
+            for i in range(3):
+                for j, c in enumerate(cells):
+                    d = SReal(D[i, j])
+                    goals.append(And(d >= 0, d * d == (order[i] -
+                                                       _c(c.pos)).abs2()))
+            ctx.prove(nm + '=euclidean', And(*goals))
+        one = cells[0].calc_dist(cells[-1])
+        ctx.prove('calc_dist=euclidean',
+                  And(SReal(one) >= 0, SReal(one) * SReal(one) ==
+                      (_c(cells[0].pos) - _c(cells[-1].pos)).abs2()))
+
+    def replay(self, cfg, name, model):
+        ce = repo_module(CE)
+        m = model_floats(model)
+        rot = _angle_from_model(m, 'rot', _lit(cfg))
+        pos = complex(m.get('pos_re', 0.0), m.get('pos_im', 0.0))
+        r = _size_from_model(m, cfg)
+        ce.Cluster._normalized_cell_positions.clear()
+        cl = ce.Cluster(r, cfg['N'], pos, 1, cfg['type'], rot)
+        cells = list(cl)
+        # users: the model's offsets are not needed for a distance check;
+        # place users inside the cells through the public API
+        cells[-1].add_border_user(40.0, 0.5)
+        cells[0].add_border_user(200.0, 0.3)
+        cells[-1].add_border_user(100.0, 0.9)
+        users = cl.get_all_users()
+        D = cl.calc_dist_all_users_to_each_cell()
+        D2 = cl.calc_dist_all_users_to_each_cell_no_wrap_around()
+        want = np.array([[abs(u.pos - c.pos) for c in cells] for u in users])
+        bad = not (np.allclose(D, want, rtol=1e-9) and np.allclose(
+            D2, want, rtol=1e-9))
+        return dict(reproduced=bad, key='C19/Cluster.calc_dist_all_users/%s' %
+                    cfg['type'], detail=dict(got=D.tolist(),
+                                             want=want.tolist()))
+
+    def concrete(self, cfg, rng):
+        r = self.replay(cfg, '', dict(pos_re=rng.uniform(-3, 3),
+                                      pos_im=rng.uniform(-3, 3),
+                                      r=10**rng.uniform(-1, 1), rot_c=1.0,
+                                      rot_s=0.0))
+        assert not r['reproduced'], r
+        return 1
+
+
+# ---------------------------------------------------------------------------
+class PointProcess(Harness):
+    """random points requested inside a circle (annulus) or rectangle fall
+    inside it."""
+    name = 'pointprocess'
+    modules = (PP, )
+    builtins = NAMES
+    div_mode = 'assume'
+    functions = (PP + ':generate_random_points_in_circle',
+                 PP + ':generate_random_points_in_rectangle')
+    bounds = ('3 points; max_radius > 0, 0 <= min_radius <= max_radius; width, '
+              'height > 0; every RNG draw an arbitrary real in [0,1)')
+    stubs = ('np.random.random_sample -> fresh symbolic reals in [0,1)',
+             'np.exp(-1j x) -> (cos x, -sin x) with c^2+s^2=1')
+    timeout_ms = {'quick': 15000, 'thorough': 60000}
+
+    def sym(self, ctx, cfg):
+        _setup(ctx, self, cfg)
+        pp = repo_module(PP)
+        R = ctx.real('R', positive=True)
+        mn = ctx.real('mn', lo=0)
+        ctx.assume(mn <= R)
+        pts = pp.generate_random_points_in_circle(3, R, mn)
+        assert np.shape(pts) == (3, )
+        ctx.prove('in-annulus', And(*[And(_c(p).abs2() <= R * R,
+                                          _c(p).abs2() >= mn * mn)
+                                      for p in pts]))
+        pts = pp.generate_random_points_in_circle(2, R)
+        ctx.prove('in-circle', And(*[_c(p).abs2() <= R * R for p in pts]))
+        w = ctx.real('w', positive=True)
+        h = ctx.real('h', positive=True)
+        pts = pp.generate_random_points_in_rectangle(3, w, h)
+        assert np.shape(pts) == (3, )
+        ctx.prove('in-rectangle', And(*[And(_band(_c(p).re * 2, w),
+                                            _band(_c(p).im * 2, h))
+                                        for p in pts]))
+
+    def replay(self, cfg, name, model):
+        pp = repo_module(PP)
+        m = model_floats(model)
+        old = pp.np
+        pp.np = _ScriptedNP(_draws(m))
+        try:
+            R, mn = m.get('R', 1.0), m.get('mn', 0.0)
+            w, h = m.get('w', 1.0), m.get('h', 1.0)
+            a = pp.generate_random_points_in_circle(3, R, mn)
+            b = pp.generate_random_points_in_circle(2, R)
+            c = pp.generate_random_points_in_rectangle(3, w, h)
+        finally:
+            pp.np = old
+        bad = []
+        if np.any(np.abs(a) > R * (1 + 1e-12)) or np.any(
+                np.abs(a) < mn * (1 - 1e-12)):
+            bad.append('annulus')
+        if np.any(np.abs(b) > R * (1 + 1e-12)):
+            bad.append('circle')
+        if np.any(np.abs(c.real) > w / 2 * (1 + 1e-12)) or np.any(
+                np.abs(c.imag) > h / 2 * (1 + 1e-12)):
+            bad.append('rectangle')
+        return dict(reproduced=bool(bad),
+                    key='C19/pointprocess/' + '+'.join(bad),
+                    detail=dict(R=R, min_radius=mn, w=w, h=h))
+
+    def concrete(self, cfg, rng):
+        pp = repo_module(PP)
+        np.random.seed(rng.randrange(2**31))
+        n = 0
+        for _ in range(20):
+            R = 10**rng.uniform(-2, 2)
+            mn = rng.uniform(0, R)
+            a = pp.generate_random_points_in_circle(50, R, mn)
+            assert np.all(np.abs(a) <= R * (1 + 1e-12)) and np.all(
+                np.abs(a) >= mn * (1 - 1e-12))
+            w, h = 10**rng.uniform(-2, 2), 10**rng.uniform(-2, 2)
+            c = pp.generate_random_points_in_rectangle(50, w, h)
+            assert np.all(np.abs(c.real) <= w / 2) and np.all(
+                np.abs(c.imag) <= h / 2)
+            n += 1
+        return n
+
+
+def _wrap_replay(h):
+    orig = h.replay
+
+    def replay(cfg, name, model):
+        rp = orig(cfg, name, model)
+        rp['detail'] = _js(rp.get('detail'))
+        return rp
+    h.replay = replay
+    return h
+
+
+HARNESSES = [RectContain(), CircleContain(), HexVertices(), BorderPoint(),
+             RandomUser(), ClusterLayout(), Distances(), PointProcess()]
+HARNESSES = [_wrap_replay(h) for h in HARNESSES]
 
 MANIFEST = dict(
     category='model_checking',
